@@ -124,6 +124,20 @@ def run(ctx):
                           {'def': d}, key='mps-vod-duration')
         if len(listed) >= 2:
             ctx.nontriv(('vod', d['name']))
+        # the init segment of every listed Representation, through the URL the manifest itself spells out (query string included)
+        try:
+            from ..manifesthttp import advertised_urls, local_path
+            for kind_, url_, info_ in advertised_urls(mpd, 0):
+                if kind_ != 'init':
+                    continue
+                ri = c.get(local_path(url_))
+                ctx.count('http:mps-advertised-init')
+                if ri.status_code != 200:
+                    ctx.violation('vod manifest of %s: the init segment it advertises, %s, answers %d' % (d['name'], local_path(url_), ri.status_code),
+                                  {'def': d, 'url': local_path(url_)})
+                    break
+        except Exception as e:  # noqa
+            ctx.dist('advertised-init:harness-%s' % type(e).__name__)
         # ------------------------------------------------ live listings
         for _ in range(2 if ctx.quick() else 6):
             depth = rng.choice([20, 60, 300])
